@@ -374,6 +374,37 @@ fn node_scenario(a: &[&str]) -> String {
 pub fn run(op: &str, a: &[&str]) -> Option<String> {
     Some(match op {
         "node" => node_scenario(a),
+        "ival" => interval_op(a),
         _ => return None,
     })
+}
+
+// ---- announcement interval on a real node (C15) -------------------------------------------------
+// ival <own peer timeout> <keepalive|-> <adv1,adv2,...|-> : a real node with fake established peers that
+// advertise the given timeouts runs one housekeeping round; prints the delay until the next announcement
+pub fn interval_op(a: &[&str]) -> String {
+    MockTimeSource::set_time(1000);
+    MockSocket::set_nat(false);
+    let mut c = Config::default();
+    c.device_type = Type::Tun;
+    c.peer_timeout = num(a[0]);
+    c.keepalive = if a[1] == "-" { None } else { Some(num(a[1])) };
+    c.auto_claim = false;
+    c.port_forwarding = false;
+    c.listen = "[::]:1".into();
+    c.crypto.password = Some("x".into());
+    c.crypto.algorithms = vec!["plain".into()];
+    let mut n = TunNode::new(&c, MockSocket::new(addr_of(1)), MockDevice::new(), None, None);
+    if a[2] != "-" {
+        for (i, t) in a[2].split(',').enumerate() {
+            n.v_fake_peer(addr_of(100 + i as u32), num(t));
+        }
+    }
+    let ok = n.v_housekeep();
+    let (np, _) = n.v_sched();
+    let mut sent = 0;
+    while n.v_socket().pop_outbound().is_some() {
+        sent += 1;
+    }
+    format!("{} {} sent={}", if ok { "ok" } else { "hkerr" }, np - 1000, sent)
 }
